@@ -344,8 +344,11 @@ def r4(rep, prog):
         gb = calls_to(prog, body, {IW + "get_batch_opstamps"})
         sb = calls_to(prog, body, {IW + "send_add_documents_batch"})
         st = calls_to(prog, body, {ST + "stamps"})
-        rep.check(len(gb) == 1 and len(sb) == 1 and not st, R, "run draws its opstamps once and sends one batch", "1 get_batch_opstamps, 1 send_add_documents_batch",
-                  "IndexWriter::run draws opstamps %d time(s) and sends %d batch(es): the operations of one batch are no longer contiguous / one unit" % (len(gb) + len(st), len(sb)), site=body.span)
+        # the range is drawn by get_batch_opstamps or, when that helper is written into run, by Stamper::stamps itself
+        draws = sorted({b for b, _ in gb} | {b for b, _ in st})
+        gb = [(b, body.term(b)) for b in draws]
+        rep.check(len(draws) == 1 and len(sb) == 1, R, "run draws its opstamps once and sends one batch", "1 get_batch_opstamps, 1 send_add_documents_batch",
+                  "IndexWriter::run draws opstamps %d time(s) and sends %d batch(es): the operations of one batch are no longer contiguous / one unit" % (len(draws), len(sb)), site=body.span)
         if gb and sb:
             # neither is inside the loop over operations
             for what, (b, t) in (("get_batch_opstamps", gb[0]), ("send_add_documents_batch", sb[0])):
@@ -353,7 +356,8 @@ def r4(rep, prog):
             rule_must_pass(rep, prog, R, IW + "run", {IW + "send_add_documents_batch"}, "send_add_documents_batch", a_ok=True, starts=tuple(body.succ(gb[0][0])), start_what="get_batch_opstamps")
     gbb = get_body(rep, prog, R, IW + "get_batch_opstamps")
     if gbb is not None:
-        rep.check(len(calls_to(prog, gbb, {ST + "stamps"})) == 1 and not calls_to(prog, gbb, {ST + "stamp"}), R, "get_batch_opstamps uses one Stamper::stamps call", "contiguous range", "get_batch_opstamps no longer draws one contiguous range", site=gbb.span)
+        standin = gbb.id != IW + "get_batch_opstamps"      # the helper was written into run (which stamps an empty batch with stamp())
+        rep.check(len(calls_to(prog, gbb, {ST + "stamps"})) == 1 and (standin or not calls_to(prog, gbb, {ST + "stamp"})), R, "get_batch_opstamps uses one Stamper::stamps call", "contiguous range", "get_batch_opstamps no longer draws one contiguous range", site=gbb.span)
     for m, op_adt in (("add_document", I + "operation::AddOperation"), ("delete_query", I + "operation::DeleteOperation")):
         b = get_body(rep, prog, R, IW + m)
         if b is None:
